@@ -201,6 +201,32 @@ def check_high_orders(z):
     return bad, n_cmp
 
 
+def check_size_sweep(z):
+    """every grid size from 2 to 260 (the medium sizes no table covers): shape, the pupil, and three low modes against their closed
+    forms at the exact pixel centres;  float sizes that are an integer up to rounding"""
+    bad = []
+    for N in range(2, 261):
+        c = (np.arange(N) - N / 2.0 + 0.5) / (N / 2.0)
+        X, Y = np.meshgrid(c, c)
+        R2 = X * X + Y * Y
+        inside = R2 <= 1.0
+        for j, f in ((1, lambda: np.ones((N, N))), (2, lambda: 2 * X), (4, lambda: np.sqrt(3.0) * (2 * R2 - 1))):
+            try:
+                got = np.asarray(z.zernike_noll(j, N), float)
+            except Exception as ex:  # noqa
+                return [("zernike_noll:raises:grid-size-%d" % N, dict(N=N, j=j, error=repr(ex)[:120]))]
+            want = np.where(inside, f(), 0.0)
+            if got.shape != (N, N) or not np.allclose(got, want, rtol=0, atol=1e-9):
+                return [("zernike_noll:mode-values:grid-size-sweep", dict(N=N, j=j, shape=list(got.shape)))]
+    for Nf in (0.29 * 100, 0.57 * 100, 15.6, 24.0, 17.4, 33.00000000000001):
+        want_n = int(np.round(Nf))
+        za = np.asarray(z.zernikeArray(3, Nf))            # (the count form rounds a float size; the index-list form takes integer sizes only)
+        if za.shape != (3, want_n, want_n) or not np.array_equal(za, np.asarray(z.zernikeArray([1, 2, 3], want_n))):
+            bad.append(("zernikeArray:float-size", dict(size=repr(Nf), shape=list(za.shape), expected=[3, want_n, want_n])))
+            break
+    return bad
+
+
 def check_coefficient_scales(z):
     """phaseFromZernikes is linear in the coefficient vector at every magnitude (metres, nanometres, mixed)"""
     N = 9
@@ -302,7 +328,7 @@ def run(run):
             bad, nhi = check_high_orders(z)
             run.traces += nhi
             run.aux["high_order_comparisons"] = nhi
-            for key, detail in bad + check_coefficient_scales(z):
+            for key, detail in bad + check_coefficient_scales(z) + check_size_sweep(z):
                 run.violation(key, detail, dict(kind="high-orders", detail=detail))
             run.traces += len(modes)
     run.sample(noll[min(7, len(noll) - 1)])
